@@ -408,6 +408,12 @@ func execURL(sim *core.Sim, prop string, p *Plan, out *core.Outcome) {
 		// a decoy on another scheme must not be reached
 		decoy := t.scheme + "x"
 		transport.RegisterDialer(decoy, &plainStub{id + 50000})
+		if c.Stub == "alias" {
+			// ... except by the alias dialer, which forwards to it through the registry
+			stubKind = "alias"
+			sim.Probe("dials-through-a-forwarding-dialer")
+			reg = func(s string) { transport.RegisterContextDialer(s, &aliasStub{id: id, target: decoy}) }
+		}
 		reg(t.scheme)
 		conn, derr, pv, stack := dialVia(c.Via, u)
 		transport.UnregisterDialer(t.scheme)
